@@ -508,6 +508,10 @@ def _is_trivial(node):
       ast.BitXor,
       ast.BitAnd,
       ast.FloorDiv,
+      ast.MatMult,
+      # Boolean operators
+      ast.And,
+      ast.Or,
       # Unary operators
       ast.Invert,
       ast.Not,
